@@ -202,12 +202,15 @@ def run(ctx):
     ctx.check(len(gfm) == 1 and len(app) == 1 and gc.dominates(gc.vertex_of(gfm[0]), gc.vertex_of(app[0])), 'R04.3', MB + 'decode_group#missing-per-element', g.loc,
               'each element is checked for missing mandatory fields before it is appended')
     rets = [(v, n) for (v, kind, n) in fc.exits() if kind == 'return']
-    ctx.need(len(rets) == 1, 'factory: single return expected')
-    atoms = [q.polar(c, w) for (c, w) in fc.controlling(rets[0][0])]
+    ctx.need(len(rets) >= 1, 'factory: no return found')
     def is_ten(a, p):
         s = a.strip(casts=True)
-        return s.k == 'BinaryOperator' and s.op == '!=' and p is False and s.children[1].strip(casts=True).value in (ord('1'), ord('0'))
-    ctx.check(sum(1 for a, p in atoms if is_ten(a, p)) == 2, 'R04.3', M + 'factory#trailer-position', fac.loc, '`return msg` requires "10" seven bytes before the end')
+        if s.k != 'BinaryOperator' or s.children[1].strip(casts=True).value not in (ord('1'), ord('0')):
+            return False
+        return (s.op == '!=' and p is False) or (s.op == '==' and p is True)
+    # every normal return (there may be an early one for the no-checksum mode) lies behind both character tests
+    ok10 = all(sum(1 for a, p in [q.polar(c, w) for (c, w) in fc.controlling(rv)] if is_ten(a, p)) == 2 for (rv, rn) in rets)
+    ctx.check(ok10, 'R04.3', M + 'factory#trailer-position', fac.loc, '`return msg` requires "10" seven bytes before the end')
     nock = fac.param_ids[2]
     cmpb = q.branches(fac, lambda a: a.strip(casts=True).k == 'BinaryOperator' and a.strip(casts=True).op in ('!=', '==') and
                       all(x.strip(casts=True).k == 'DeclRefExpr' and x.strip(casts=True).decl['n'] in ('chkval', 'mchkval') for x in a.strip(casts=True).children))
